@@ -86,8 +86,10 @@ CLAIMED = {
    text="Coq theorem (C15.v): for every API state, cache (pods, revisions) and fault oracle, a reconcile of an admitted set (replicas present >= 0, "
         "revisionHistoryLimit present, any policy/strategy strings, rollingUpdate absent/{}/any partition, any annotations; no int32 wrap) never "
         "returns a Panic outcome; every modelled panic site (nil replicas, negative make length, nil revisionHistoryLimit) is guarded or excluded. "
-        "Differential run over the CRD-admitted shape product x pod populations under recover, comparing outcome and full log.",
-   note="As C03. Panic sites of the Go code are modelled by hand (nil dereferences guarded by the repaired code are gone); selector kinds modelled: valid / unconvertible.",
+        "Differential run over the CRD-admitted shape product x pod populations (members at the edge of the int32 ordinal range included) under recover, "
+        "comparing outcome and full log; monitor-only family for admitted shapes outside the model (template without labels, unappliable revision data, "
+        "set names of 64-253 characters: the harness answers an unparsable list selector with 400 like the API server).",
+   note="As C03. Panic sites of the Go code are modelled by hand; one that was NOT modelled (nil dereference after the first-unhealthy scan for a pod with ordinal MaxInt32) was a genuine defect, repaired in /repo (e6f563f) (nil dereferences guarded by the repaired code are gone); selector kinds modelled: valid / unconvertible.",
    technique="Coq proof (no-panic program logic over the reconcile model) + differential correspondence under recover + monitor",
    ref="6 C15"),
  "C16": dict(
@@ -96,7 +98,8 @@ CLAIMED = {
         "changed orphan => exactly the matching sets; equal resourceVersion, unrelated pods, malformed tombstones => nothing; set events => that set) "
         "and processNextWorkItem over the work-queue contract always calls Done, re-queues a failed key with NumRequeues+1 and clears it on success, "
         "for every outcome list. Tied to the code exhaustively over the 2661-shape event domain (hook path and informer-handler path) and all "
-        "outcome sequences on the real controller and real queue.",
+        "outcome sequences on the real controller and real queue. Event-driven family on the real controller (monitor only): after several failed reconciles the "
+        "key waits for its rate-limited retry; a pod or set event delivered then must put the key into the queue at once.",
    note="Trusted: Coq kernel; model of handlers/lister; client-go work queue + rate limiter as a CONTRACT (Queue.v), validated by the worker correspondence; "
         "selector evaluation modelled. Reading: label-less pods match nothing; orphan delete / unchanged orphan update are not relevant events.",
    technique="Coq proof (handlers == declarative enqueue spec; queue state-machine invariant) + exhaustive differential correspondence + monitor",
@@ -115,7 +118,9 @@ CLAIMED = {
    text="Coq theorems (C20.v) over a labelled transition system of the relay (all event sequences, payload kinds, source buffer sizes, interleavings): "
         "received is a converted prefix of the handed events with equal types; Crashed unreachable for marshalable payloads incl. Error/Status; after Stop or "
         "source end every maximal relay-only run ends Done with the result channel closed (decreasing measure); Stop idempotent; the pre-repair relay is "
-        "refuted (crash, leak). Tied to the real hijackWatch by replaying all schedules <=4 (quick) / <=6 (thorough) on real goroutines.",
+        "refuted (crash, leak). Tied to the real hijackWatch (opened through the hijack client) by replaying all schedules <=4 (quick) / <=6 (thorough) on real goroutines. "
+        "Monitors beyond the model: the same harness built with Go's race detector on schedules with concurrent Stop calls (a report with both accesses in "
+        "hijack.go), a harness process killed by a panic is a violation, and at the end of every harness process no goroutine may be left in hijack.go.",
    note="PARTIAL: Go scheduler, channel/select/close semantics, sync.Mutex, defer order and HandleCrash are modelled, not verified; the only leak the model can "
         "exhibit is a parked relay goroutine. Hypothesis: payloads marshalable by encoding/json.",
    technique="Coq proof (LTS invariants by induction over runs + termination measure) + differential schedule replay on the real watch + monitor",
@@ -155,7 +160,10 @@ CLAIMED = {
         "PARTIAL, not proved. (b) Coq theorems (C18.v): a listed revision recording the template is reused without any create; pods of the desired set at "
         "the update revision are never deleted; adoption of the marked revisions happens after a fresh GET; a concrete migrated world is adopted, "
         "creates nothing, deletes nothing and is quiet on the second reconcile. Correspondence + monitor on generated migrated worlds (orphan revisions "
-        "with marker and without selector labels, orphaned pods, any point of a rollout), two reconciles.",
+        "with marker and without selector labels, orphaned pods, any point of a rollout), two reconciles; bytes also through helper.Upgrade itself on fake "
+        "clientsets; the window between Upgrade and the garbage collector's orphaning (revisions and pods still controlled by the deleted built-in set, then "
+        "a gc step, then the migration goes on). OPEN FINDING C18-pre-gc-collision-count: in that window a copied status.collisionCount >= 1 makes the "
+        "reconcile create a duplicate revision that later becomes the update revision, and pods are restarted.",
    note="PARTIAL for (a) as stated. (b) as C03.",
    technique="codec differential test (bytes) + Coq proof of the control part over the reconcile model + differential correspondence + monitor",
    ref="6 C18"),
@@ -164,7 +172,8 @@ CLAIMED = {
         "the key; frame); schema-directed JSON conversion lossless on every field the Advanced schema models, never fails, keeps list length/order, yields "
         "apps/v1 — generic in the schemas and re-instantiated each run on schemas extracted from the Go types by reflection; the combinator model of "
         "SetObjectDefaults_StatefulSet is idempotent on every JSON tree. Tied to the real helpers, From/ToBuiltin*, the real hijack client over the fake "
-        "clientset and the real defaulter by differential evaluation inside coqc.",
+        "clientset and the real defaulter by differential evaluation inside coqc; the hijack family also checks what Create/Update/UpdateStatus return "
+        "and store and that AlreadyExists / NotFound of the Advanced API reach the caller.",
    note="Trusted: Coq kernel; opaque-leaf assumption for identical k8s types; tree-level model of encoding/json; the reflection translator; Quantity.RoundUp / "
         "ParseImageName as functions with an idempotence hypothesis (proved for the evaluated model). Partial: leaves calling into apimachinery.",
    technique="Coq proof over executable models + reflection-based schema translator + differential correspondence",
